@@ -205,8 +205,22 @@ def _drain(pipe, shard, which):
 STALL_S = {"dbg": 240, "rel": 240, "odd": 240, "asan": 480, "tsan": 480, "miri": 900}
 
 
+def _drain_fd(fd, shard):
+    """Read a pseudo-terminal master until the slave side is closed (EIO)."""
+    while True:
+        try:
+            chunk = os.read(fd, 65536)
+        except OSError:
+            break
+        if not chunk:
+            break
+        shard.err_bytes += len(chunk)
+        shard.err_tail = (shard.err_tail + chunk)[-4000:]
+    os.close(fd)
+
+
 def run_shards(tag, prop, tier, seed, rundir, nshards=None, scale=None, time_cap=None, watchdog=600,
-               extra_args=None, wrap=None, cwd=None, stall_s=None, extra_env=None):
+               extra_args=None, wrap=None, cwd=None, stall_s=None, extra_env=None, pty=False):
     """Run all shards of one (build, property, tier) in parallel; return the list of Shard objects."""
     cmd, _ = build(tag)
     nshards = nshards or NSHARDS
@@ -233,10 +247,20 @@ def run_shards(tag, prop, tier, seed, rundir, nshards=None, scale=None, time_cap
         if tag == "miri":
             # every shard gets its own scheduler seed, so thread cases see different interleavings
             env["MIRIFLAGS"] = env.get("MIRIFLAGS", "") + " -Zmiri-seed=%d" % (seed * 64 + s.i)
-        p = subprocess.Popen(args, env=env, cwd=cwd or HARNESS, stdout=subprocess.PIPE, stderr=subprocess.PIPE,
-                             start_new_session=True)
-        th1 = threading.Thread(target=_drain, args=(p.stdout, s, "out"))
-        th2 = threading.Thread(target=_drain, args=(p.stderr, s, "err"))
+        if pty:
+            # fds 0/1/2 of the worker are a terminal (isatty() is true); whatever is written to it
+            # arrives at the master side, which this process reads
+            master, slave = os.openpty()
+            p = subprocess.Popen(args, env=env, cwd=cwd or HARNESS, stdin=slave, stdout=slave, stderr=slave,
+                                 start_new_session=True)
+            os.close(slave)
+            th1 = threading.Thread(target=_drain_fd, args=(master, s))
+            th2 = threading.Thread(target=lambda: None)
+        else:
+            p = subprocess.Popen(args, env=env, cwd=cwd or HARNESS, stdout=subprocess.PIPE, stderr=subprocess.PIPE,
+                                 start_new_session=True)
+            th1 = threading.Thread(target=_drain, args=(p.stdout, s, "out"))
+            th2 = threading.Thread(target=_drain, args=(p.stderr, s, "err"))
         th1.start()
         th2.start()
         procs.append((s, p, th1, th2, t0))
@@ -976,6 +1000,26 @@ def c19_extra(tier, seed, rundir, merged, hard, inconclusive, extra_cov, stages)
             entry["partitions_agree"] = "not compared (a worker died; totality is that property's finding)"
         broad[bp] = entry
     extra_cov["broad_workloads"] = broad
+    # (3b') the same workloads once more with fds 0/1/2 of every worker on a pseudo-terminal:
+    # output that is only produced when isatty() is true (progress notes, colour, warnings "for
+    # humans") is invisible to pipes. Any octet arriving at the master side is the library's.
+    term = {}
+    for bp in [prop] + BROAD_PROPS:
+        sh_ = run_shards("rel", bp, "quick", seed, rundir, scale=1.0, watchdog=900, pty=True)
+        octets = sum(x.err_bytes for x in sh_)
+        m = Merged()
+        for x in sh_:
+            if x.rc == 0 and x.report is not None:
+                m.add("rel", x.report)
+        term[bp] = {"cases": m.evaluations.get("rel", 0), "terminal_octets": octets}
+        if octets:
+            tail = b"".join(x.err_tail for x in sh_ if x.err_tail)[:300]
+            hard.append({"signature": "C19:fd-output:terminal:during-%s-workload" % bp, "build": "rel", "stream": None, "idx": None,
+                         "detail": "with stdout/stderr on a terminal the codec wrote %d octets while running the %s workload: %r" % (octets, bp, tail),
+                         "witness": {"workload": bp, "fds": "pseudo-terminal", "first_octets": tail.decode("latin-1")}})
+        if m.evaluations.get("rel", 0) == 0:
+            inconclusive.append("terminal run of the %s workload observed no case" % bp)
+    extra_cov["terminal_runs"] = term
     # (3c) environment probes: an LD_PRELOAD interposer logs every getenv() of one run of the
     # purity workload; any variable the process asks for beyond the harness's and std's own is
     # then set (to "1") for another run, whose fds and per-case digests must not change
